@@ -64,6 +64,7 @@ import (
 	"fmt"
 	"io"
 	"os"
+	"sort"
 	"sync"
 	"time"
 )
@@ -630,6 +631,16 @@ func (s *persistentHybridSearch) Execute() ([]HybridSearchResult, error) {
 
 	// Merge and deduplicate results by keeping highest score per doc
 	merged := mergeResults(allResults)
+
+	// A vector-only query scores by distance (lower is better): keep the k
+	// nearest of all sources, not the k largest scores. The result is then
+	// presented like HybridSearchIndex presents it (descending score).
+	if s.vectorQuery != nil && len(s.textQueries) == 0 && len(merged) > s.k {
+		sort.Slice(merged, func(i, j int) bool {
+			return merged[i].Score < merged[j].Score
+		})
+		merged = merged[:s.k]
+	}
 
 	// Sort by score descending and limit to k
 	sortResultsByScore(merged)
